@@ -7,7 +7,7 @@ root = Path(__file__).resolve().parent.parent
 PROPS = {'01': ('C10', 'R10.1'), '02': ('C18', 'R18.1'), '03': ('C08', 'R08.3'),
          '04': ('C02', 'R02.1'), '05': ('C13', 'R13.4'), '06': ('C16', 'R16.1'),
          '07': ('C10', 'R10.3'), '08': ('C06', 'R06.2'), '09': ('C19', 'R19.1'),
-         '10': ('C03', 'R03.1'), '11': ('C09', 'R09.6'), '12': ('C11', 'R11.2'), '13': ('C10', 'R10.8'), '14': ('C08', 'R08.9'), '15': ('C16', 'R16.7'), '16': ('C13', 'R13.7'), '17': ('C10', 'R10.3'), '18': ('C03', 'R03.4'), '19': ('C07', 'R07.7')}
+         '10': ('C03', 'R03.1'), '11': ('C09', 'R09.6'), '12': ('C11', 'R11.2'), '13': ('C10', 'R10.8'), '14': ('C08', 'R08.9'), '15': ('C16', 'R16.7'), '16': ('C13', 'R13.7'), '17': ('C10', 'R10.3'), '18': ('C03', 'R03.4'), '19': ('C07', 'R07.7'), '20': ('C10', 'R10.4')}
 cat = json.loads((root / 'vsa/catalogue.json').read_text())
 cat['variants'] = [v for v in cat['variants'] if not v['id'].startswith('FIX')]
 for p in sorted((root / 'design_appendix/fixes').glob('*.patch')):
